@@ -46,6 +46,7 @@ def p_C06(res, facts, tier):
     from .rules import midi
     n = midi.check_frame(res, facts)
     res.floor('frame_instances', n, 30)
+    midi.check_edges_and_held(res, facts, 'C06')
     midi.check_parser(res, facts)
 
 
@@ -111,6 +112,7 @@ def p_C12(res, facts, tier):
 def p_C07(res, facts, tier):
     from .rules import quant
     quant.check_mask_invariant(res, facts)
+    quant.check_forbid_rescue(res, facts)
     quant.check_convert(res, facts, 'C07')
     quant.check_search(res, facts, 'C07')
     if tier == 'thorough':
@@ -128,6 +130,7 @@ def p_C09(res, facts, tier):
     from .rules import quant
     quant.check_convert(res, facts, 'C09')
     quant.check_search(res, facts, 'C09')
+    quant.check_scale_edits_keep_cache(res, facts)
 
 
 def p_C19(res, facts, tier):
